@@ -148,6 +148,9 @@ structure Variant where
   /-- `C14-attribute-xml-prefix-exact.diff`: ElemAttribute reserves exactly the prefixes `xml` / `xmlns`, not every name
   that starts with "xml"; `xml:` with another namespace is re-prefixed -/
   xmlPrefixExact : Bool := false
+  /-- `C14-namespace-alias-collect-import-tree.diff`: `Stylesheet::postConstruction` first collects the aliases of the whole
+  import tree -/
+  aliasCollectFirst : Bool := false
 deriving Repr, DecidableEq
 
 /-- the part of `XSLTEngineImpl` the property is about -/
